@@ -6,5 +6,5 @@ Check C04_still_opens : forall n es o e, fits n es -> wf_op o -> snd (step (rend
 Check C04_pack_confined : forall n es t r en p e a v b, fits n es -> wf_tag t -> split_entry es t r = Some (a, v, b) -> snd (step (render n es) (OPackVar t r en p)) = Err e -> let buf' := fst (step (render n es) (OPackVar t r en p)) in firstn (N.to_nat (voff a)) buf' = firstn (N.to_nat (voff a)) (render n es) /\ skipn (N.to_nat (voff a + len v)) buf' = skipn (N.to_nat (voff a + len v)) (render n es) /\ length buf' = length (render n es).
 Check C04_spec_error_is_identity : forall n es o e, is_pack_var o = false -> snd (s_step n es o) = Err e -> fst (s_step n es o) = es.
 Check C04_resize_error_identity_any_valid_slab : forall es (tail : list byte) t r a v b l e, Forall wf_entry es -> term tail -> wf_tag t -> split_entry es t r = Some (a, v, b) -> snd (realloc (enc es ++ tail) t l r) = Err e -> fst (realloc (enc es ++ tail) t l r) = enc es ++ tail /\ check_data (enc es ++ tail) = Ok tt.
-Check C04_failed_ops_are_noops : forall ops n es, fits n es -> Forall wf_op ops -> Forall (fun o => is_pack_var o = false) ops -> run (render n es) ops = run_dropping_failed (render n es) ops /\ exists es', run (render n es) ops = render n es' /\ fits n es'.
-Check C04_all_failed_identity : forall ops n es, fits n es -> Forall wf_op ops -> Forall (fun o => is_pack_var o = false) ops -> (forall o, In o ops -> exists e, snd (step (render n es) o) = Err e) -> run (render n es) ops = render n es.
+Check C04_failed_ops_are_noops : forall ops n es, fits n es -> Forall wf_op ops -> Forall (fun o => is_pack_var o = false) ops -> run ops (render n es) = run_dropping_failed (render n es) ops /\ exists es', run ops (render n es) = render n es' /\ fits n es'.
+Check C04_all_failed_identity : forall ops n es, fits n es -> Forall wf_op ops -> Forall (fun o => is_pack_var o = false) ops -> (forall o, In o ops -> exists e, snd (step (render n es) o) = Err e) -> run ops (render n es) = render n es.
